@@ -719,6 +719,33 @@ func driveC19srv(o opts) error {
 		}
 		rawTransact([]interface{}{map[string]interface{}{"op": "select", "table": t0.Name, "where": where}})
 	}
+	// ... and so is one with many conditions of another function, on any kind of column (a condition on a map, an atom
+	// or an optional column may be answered through an index too)
+	{
+		t0 := *sc.Table("T")
+		for _, fn := range []string{"includes", "==", "excludes"} {
+			for _, c := range t0.Cols {
+				if wedged {
+					break
+				}
+				var where []interface{}
+				for i := 0; i < 20; i++ {
+					v := g.Value(c, 3, 3)
+					for k := 0; k < 5 && (c.K == 'm' || c.K == 's') && len(v.Map)+len(v.Set) == 0; k++ {
+						v = g.Value(c, 3, 3)
+					}
+					if c.K == 'm' && len(v.Map) > 0 && c.KT == 's' {
+						v.Map = [][2]val.Atom{{val.Str(fmt.Sprintf("k%d", i)), v.Map[0][1]}}
+					}
+					cond := toOvsConds(t0.Cols, []Cond{{Col: c.Name, Fn: fn, Arg: v}})
+					if tree, err := toTree(cond[0]); err == nil {
+						where = append(where, tree)
+					}
+				}
+				rawTransact([]interface{}{map[string]interface{}{"op": "select", "table": t0.Name, "where": where}})
+			}
+		}
+	}
 	// client side: notifications with too few parameters, injected into the byte stream a libovsdb client reads
 	if err := c19ClientNotifications(slab, o.out, note, goFail); err != nil {
 		return err
